@@ -265,6 +265,30 @@ pub fn layer1_cases(tier: Tier, seed: u64) -> Vec<Case> {
             }
         }
     }
+    // generated credential families: every length 1..=16 of one letter, digit endings, password containing the
+    // username, double spaces, punctuation runs (strings an alphabet of hand-picked pairs would not contain)
+    {
+        let mut fam: Vec<(String, String)> = vec![];
+        for l in 1..=16usize {
+            fam.push(("u".repeat(l), "p".repeat(17 - l)));
+            fam.push((format!("{}7", "n".repeat(l - 1)), format!("{}9", "w".repeat((l + 4) % 16))));
+        }
+        for (u, p) in [("bob", "bobbob"), ("bob", "xbobx"), ("a  b", "c  d"), ("  ", "   "), ("x", "x x x x x x x x"), ("Zz9", "Zz9!"), ("tab~", "`til`"), ("....", ",,,,"), ("user", "USER"), ("P", "u:P"), ("u:", "P"), ("0", "0"), ("00", "0"), ("1234567890123456", "1234567890123456")] {
+            fam.push((u.to_string(), p.to_string()));
+        }
+        let step = if full { 1 } else { 3 };
+        for (i, (u, p)) in fam.iter().enumerate() {
+            if i % step != 0 {
+                continue;
+            }
+            for (si, s) in ss.iter().enumerate() {
+                if !full && si != 1 {
+                    continue;
+                }
+                v.push(Case { layer: "credential-families", reg_user: u.clone(), reg_pass: p.clone(), typed_user: u.to_ascii_uppercase(), typed_pass: p.to_ascii_lowercase(), salt: *s, b: pks[7], a: pks[8] });
+            }
+        }
+    }
     // case variants: the client types any letter case of what was registered
     let (s0, b0, a0) = (ss[1], pks[7], pks[8]);
     for c in &creds(true) {
